@@ -241,7 +241,7 @@ def gen_spec(rng, focus, small=False):
 
 
 def k11_pred(spec):
-    """the class K11 of Props_C01.v on a spec: some file passes the suffix threshold of its device, is shorter than
+    """the class of the repaired defect K11 (f4a00ae) on a spec: some file passes the suffix threshold of its device, is shorter than
     --max-prefix-size and not longer than --max-suffix-size"""
     o = spec["opts"]
     if o.get("max_prefix") is None or o.get("max_suffix") is None or o.get("transform"):
@@ -252,7 +252,7 @@ def k11_pred(spec):
 
 
 def gen_k11_spec(rng):
-    """trees aimed at K11: SSD, --max-prefix-size above and --max-suffix-size not below the length of files >= 64 KiB"""
+    """trees aimed at the class of the repaired defect K11: SSD, --max-prefix-size above and --max-suffix-size not below the length of files >= 64 KiB"""
     spec = gen_spec(rng, "C01", small=True)
     o = spec["opts"]
     o["transform"] = None
